@@ -259,7 +259,7 @@ void shapeBounds(uint64_t seed, int variant) {
 }
 
 struct Plan { size_t each; size_t shapes; };
-Plan plan() { return g_cfg.tier ? Plan{600000, 3000} : Plan{60000, 240}; }
+Plan plan() { return g_cfg.tier ? Plan{2400000, 9000} : Plan{60000, 240}; }
 const size_t PER_CASE = 250;
 
 void run(size_t idx) {
